@@ -33,11 +33,15 @@ HandshakeFail(c) == /\ phase[c] = "accepted" /\ phase' = [phase EXCEPT ![c] = "c
 \* a "shell" request on a session channel: starts the handler and the goroutine that waits for the connection's end
 ShellRequest(c) == /\ phase[c] = "authed" /\ shells[c] < MaxShells
                    /\ shells' = [shells EXCEPT ![c] = @ + 1] /\ UNCHANGED <<phase, counter>> /\ H("shell", c)
+\* a channel that is not a session (direct-tcpip from "ssh -L", x11, ...) is rejected; the connection and its other
+\* channels live on and the slot stays taken
+OtherChannel(c) == /\ phase[c] = "authed" /\ shells[c] < MaxShells
+                   /\ UNCHANGED <<phase, shells, counter>> /\ H("otherchannel", c)
 \* the connection ends (orderly or abruptly)
 Close(c) == /\ phase[c] = "authed" /\ phase' = [phase EXCEPT ![c] = "closed"]
             /\ counter' = IF KF_DecrementPerShell THEN counter - shells[c] ELSE counter - 1
             /\ UNCHANGED shells /\ H("close", c)
-Next == \E c \in Conns : Connect(c) \/ HandshakeOK(c) \/ HandshakeFail(c) \/ ShellRequest(c) \/ Close(c)
+Next == \E c \in Conns : Connect(c) \/ HandshakeOK(c) \/ HandshakeFail(c) \/ ShellRequest(c) \/ OtherChannel(c) \/ Close(c)
 Spec == Init /\ [][Next]_vars
 viewNoHist == <<phase, shells, counter>>
 
